@@ -211,9 +211,25 @@ def grep_sources():
 
 # ---------------------------------------------------------------- step 4: harness
 
-def build_harness(res, name, module_dir="harness", tags="verif"):
+def prebuild_otelcol_mod(res, module_dir):
+    """harness_otelcol/go.mod + go.sum are derived from <repo>/otelcol/go.mod (lib/mk_otelcol_mod.py)."""
+    import mk_otelcol_mod
+    try:
+        mk_otelcol_mod.derive(REPO, os.path.join(VERIF, module_dir))
+    except (SystemExit, OSError) as e:
+        res.violation("tie-broken", "harness-prebuild:" + module_dir, str(e))
+        return False
+    return True
+
+
+PREBUILD = {"otelcol_mod": prebuild_otelcol_mod}
+
+
+def build_harness(res, name, module_dir="harness", tags="verif", prebuild=None):
     exe = os.path.join(BUILD, name)
     with Lock("go-" + module_dir.replace("/", "_")):
+        if prebuild and not PREBUILD[prebuild](res, module_dir):
+            return None
         rc, out, err = run(["go", "build", "-tags", tags, "-o", exe, "./cmd/" + name],
                            cwd=os.path.join(VERIF, module_dir), env=goenv(), timeout=1800)
     if rc != 0:
